@@ -151,6 +151,15 @@ def t_edit(E):
         E.And(E.Not(pre), E.Not(post)), E.And(E.eq(w, 0.0), E.eq(E.method(new, "get_score"), 0.0))))
     E.prove("C14.MaskCombinator.edit.true_true_is_inner_weight", E.Implies(
         E.And(pre, post), E.eq(w, SReal(T.edit_w(g.t, ik, itr, irq, iad)))))
+    # C08, second clause: the task runs once with the flag tagged NoChange (honestly: post == pre) and once tagged
+    # UnknownChange; weight and new trace are proved equal to expressions that do not mention the tag
+    z3 = E.z3
+    dscore = E.I.binop("Sub", E.method(new, "get_score"), E.method(old, "get_score"))
+    spec_w = z3.If(z3.And(pre.t, post.t), T.edit_w(g.t, ik, itr, irq, iad),
+                   z3.If(z3.And(z3.Not(pre.t), z3.Not(post.t)), z3.RealVal(0), dscore.t))
+    E.prove("C08.MaskCombinator.edit.weight_does_not_depend_on_the_tag_of_an_unchanged_flag", E.eq(w, SReal(spec_w)))
+    E.prove("C08.MaskCombinator.edit.new_trace_does_not_depend_on_the_tag_of_an_unchanged_flag",
+            check_view(E, new, mc, new_inner, post, TupleT((post,), T.d_primal(argdiffs.tail))))
     # C08: retdiff primal is the new return value
     E.prove("C08.MaskCombinator.edit.retdiff_primal",
             E.eq(E.call(INC + ":Diff.tree_primal", rd), E.method(new, "get_retval")))
